@@ -12,6 +12,8 @@ import (
 	"verif/internal/smt"
 )
 
+var bytesInner0 = smt.Array(smt.BV(64), smt.BV(8))
+
 // OblResult is the outcome of one obligation.
 type OblResult struct {
 	Name    string            `json:"name"`
@@ -101,6 +103,15 @@ func (e *Engine) Solve(dir string, timeoutS int, all bool, par chan struct{}) []
 		}
 		return smt.Solve(script, dir, name, t, false)
 	}
+	if _, used := e.C.Funcs["big.twosval"]; used {
+		// ASSUMED (backed by the bounded stand-in varint_bounded_test.go): decoding the minimal two's-complement
+		// encoding of z gives z
+		B := "(_ BitVec 256)"
+		e.Extra = append(e.Extra, "(assert (forall ((z "+B+")) (! (= (big.twosval (bytes.win (big.twosbytes z) (_ bv0 64) (big.twoslen z))) z) :pattern ((bytes.win (big.twosbytes z) (_ bv0 64) (big.twoslen z))))))")
+		e.C.App("big.twosbytes", bytesInner0, e.C.BVLit64(0, 256))
+		e.C.App("big.twoslen", smt.BV(64), e.C.BVLit64(0, 256))
+		e.C.App("bytes.win", bytesInner0, e.C.App("big.twosbytes", bytesInner0, e.C.BVLit64(0, 256)), e.C.BVLit64(0, 64), e.C.BVLit64(0, 64))
+	}
 	var wg sync.WaitGroup
 	var mu sync.Mutex
 	single := func(i int) {
@@ -114,9 +125,18 @@ func (e *Engine) Solve(dir string, timeoutS int, all bool, par chan struct{}) []
 				vals = append(vals, in.T)
 			}
 		}
-		script := e.C.Script(asserts, e.Extra, vals)
+		extra := e.Extra
+		if o.ExpectSat {
+			extra = nil // satisfiability with quantified axioms is rarely decided; the axioms only restrict models
+		}
+		script := e.C.Script(asserts, extra, vals)
 		mu.Unlock()
-		r := runScript(o.Name, script)
+		var r smt.Result
+		if o.ExpectSat {
+			r = runBatch(o.Name, script)
+		} else {
+			r = runScript(o.Name, script)
+		}
 		res := &results[i]
 		res.Solver, res.Seconds, res.How = r.Solver, r.Seconds, "single"
 		switch {
